@@ -211,6 +211,9 @@ class Report:
         except NotApplicable as exc:
             self.skipped.setdefault((fmt, fault), []).append(f"{label}: {exc}")
             return None
+        except ValueError as exc:        # the key cannot make such a signature (e.g. PS512 with a 1024-bit modulus)
+            self.skipped.setdefault((fmt, fault), []).append(f"{label}: {exc}")
+            return None
         accepted, reason = verify(req, result)
         self.rows.append((fmt, label, fault or "-", accepted, reason))
         if self.verbose:
